@@ -842,7 +842,7 @@ func (m *actxPkg) computeCatchable() {
 				return true
 			}
 			if id, ok := actxStrip(sel.X).(*ast.Ident); ok {
-				if g := src[m.info.Uses[id]]; g != nil {
+				if g := src[m.info.Uses[id]]; g != nil && m.resumesAfter(fd, call) {
 					seeds = append(seeds, g)
 				}
 			}
@@ -954,4 +954,138 @@ func (m *actxPkg) monotoneMarker(f *types.Var) bool {
 		}
 	}
 	return n > 0
+}
+
+// resumesAfter: the inspection of an interrupt's Kind() is a *catch* only when
+// some path from the inspecting statement completes without handing a failure
+// on: a return whose error/interrupt results are all nil, a break/continue of
+// an enclosing loop, another loop iteration, or falling off the end of the
+// function. A function that looks at the kind merely to re-wrap or relabel the
+// failure and returns a failure on every path does not let execution resume.
+func (m *actxPkg) resumesAfter(fd *ast.FuncDecl, call *ast.CallExpr) bool {
+	// chain of enclosing nodes, innermost first
+	var chain []ast.Node
+	var stack []ast.Node
+	ast.Inspect(fd.Body, func(n ast.Node) bool {
+		if n == nil {
+			stack = stack[:len(stack)-1]
+			return true
+		}
+		stack = append(stack, n)
+		if n == ast.Node(call) {
+			for i := len(stack) - 1; i >= 0; i-- {
+				chain = append(chain, stack[i])
+			}
+		}
+		return true
+	})
+	if len(chain) == 0 {
+		return true
+	}
+	isErrRet := func(r *ast.ReturnStmt) bool {
+		for _, e := range r.Results {
+			if !actxIsErrType(m.info.TypeOf(e)) {
+				continue
+			}
+			if id, ok := ast.Unparen(e).(*ast.Ident); ok && id.Name == "nil" {
+				continue
+			}
+			return true
+		}
+		return false
+	}
+	var some func(list []ast.Stmt, k func() bool) bool // some path through list (then k) ends without a failure
+	some = func(list []ast.Stmt, k func() bool) bool {
+		if len(list) == 0 {
+			return k()
+		}
+		rest := func() bool { return some(list[1:], k) }
+		switch x := list[0].(type) {
+		case *ast.ReturnStmt:
+			return !isErrRet(x)
+		case *ast.BranchStmt:
+			return true
+		case *ast.ExprStmt:
+			if IsPanicCall(m.info, x) {
+				return false
+			}
+			return rest()
+		case *ast.BlockStmt:
+			return some(x.List, rest)
+		case *ast.LabeledStmt:
+			return some([]ast.Stmt{x.Stmt}, rest)
+		case *ast.IfStmt:
+			if some(x.Body.List, rest) {
+				return true
+			}
+			if x.Else != nil {
+				return some([]ast.Stmt{x.Else}, rest)
+			}
+			return rest()
+		case *ast.SwitchStmt, *ast.TypeSwitchStmt:
+			var body *ast.BlockStmt
+			if sw, ok := x.(*ast.SwitchStmt); ok {
+				body = sw.Body
+			} else {
+				body = x.(*ast.TypeSwitchStmt).Body
+			}
+			hasDefault := false
+			for _, cl := range body.List {
+				cc := cl.(*ast.CaseClause)
+				if cc.List == nil {
+					hasDefault = true
+				}
+				if some(cc.Body, rest) {
+					return true
+				}
+			}
+			if !hasDefault {
+				return rest()
+			}
+			return false
+		case *ast.ForStmt, *ast.RangeStmt:
+			return true // another iteration / leaving the loop normally
+		}
+		return rest()
+	}
+	// continuation after a node of the chain completes normally
+	var after func(i int) func() bool
+	after = func(i int) func() bool {
+		return func() bool {
+			for j := i + 1; j < len(chain); j++ {
+				var list []ast.Stmt
+				switch p := chain[j].(type) {
+				case *ast.BlockStmt:
+					list = p.List
+				case *ast.CaseClause:
+					list = p.Body
+				case *ast.ForStmt, *ast.RangeStmt:
+					return true
+				case *ast.FuncLit:
+					return true
+				default:
+					continue
+				}
+				child := chain[j-1]
+				for idx, st := range list {
+					if ast.Node(st) == child {
+						return some(list[idx+1:], after(j))
+					}
+				}
+			}
+			return true // end of the function body
+		}
+	}
+	// the innermost statement that contains the inspection
+	for i, n := range chain {
+		st, ok := n.(ast.Stmt)
+		if !ok {
+			continue
+		}
+		switch st.(type) {
+		case *ast.IfStmt, *ast.SwitchStmt, *ast.ExprStmt, *ast.AssignStmt, *ast.ReturnStmt, *ast.DeclStmt:
+			return some([]ast.Stmt{st}, after(i))
+		}
+	}
+	return true
 }
